@@ -135,3 +135,9 @@ def _ref_uses(t):
     return set() if t[0] else {'P0015'}
 VERDICT_TEMPLATES['symvar_contexts'] = dict(ref=_ref_uses, tpl=_T('TYPE\n  st : STRUCT\n    a : INT;\n  END_STRUCT;\nEND_TYPE\nFUNCTION twice : INT\nVAR_INPUT\n  val : INT;\nEND_VAR\n  twice := val * 2;\nEND_FUNCTION\n' + _CALLEE +
     'FUNCTION_BLOCK p\nVAR\n  x : INT;\n  b : BOOL;\n  arr : ARRAY[1..3] OF INT;\n  s : st;\n  inst : callee;\n', ('opt', '  y : INT;\n'), 'END_VAR\n  ', ('alt', _USES), '\nEND_FUNCTION_BLOCK\n'))
+
+# an enumeration, an alias of it and an alias of the alias, used by several variables in one or two POUs: every use is valid (a walk along
+# the alias chain must not remember anything from one use to the next)
+def _ref_alias_twice(t): return set()
+VERDICT_TEMPLATES['enum_alias_used_twice'] = dict(ref=_ref_alias_twice, tpl=_T('TYPE\n  e : (a, b) := a;\n  f : e;\n  g : f;\nEND_TYPE\nFUNCTION_BLOCK one\nVAR\n  v1 : ', ('alt', ['e', 'f', 'g']), ' := a;\n  v2 : ', ('alt', ['e', 'f', 'g']), ' := b;\nEND_VAR\nEND_FUNCTION_BLOCK\n',
+    ('opt', 'FUNCTION_BLOCK two\nVAR\n  w : g := a;\nEND_VAR\nEND_FUNCTION_BLOCK\n')))
